@@ -192,10 +192,69 @@ Definition qsm_mul (A B : qsm) : option qsm :=
     construct n diag lower upper false
   end.
 
+
+(* ---- qsm_mul in uniform form: a missing part is a part of order 0 (or a zero diagonal), so that one set of formulas
+   covers all 49 kind pairs; the parts that the Python leaves out (None) are exactly those listed by the presence flags.
+   Observationally identical to qsm_mul (same kind, same orders, same entries: x + 0 = x, 0 * x = 0);
+   both are run against the implementation by the C05 correspondence check. *)
+Definition tri0 (n : nat) : tri := MkTri n 0 (nseq n [::]) (nseq n [::]) (nseq n [::]).
+Definition otri n (o : option tri) : tri := if o is Some t then t else tri0 n.
+Definition ovec n (o : option vec) : vec := if o is Some d then d else vzero K n.
+
+Section MulU.
+Variables (n : nat) (da db : vec) (la ua lb ub : tri).
+Let m1 := tm la. Let m2 := tm ua. Let m3 := tm lb. Let m4 := tm ub.
+Definition phis : seq mat := fscan (phi_step la ub) (lzero K m1 m4) n.
+Definition psis : seq mat := bscan (psi_step ua lb) (lzero K m2 m3) n.
+Definition alpha_u k : vec :=
+  vadd K m1 (vscale K m1 (vget K db k) (mrow (tq la) k))
+            (lmatvec K m1 m4 (lmul K m1 m1 m4 (tget (ta la) k) (nth [::] phis k)) (mrow (tp ub) k)).
+Definition beta_u k : vec :=
+  vadd K m3 (vscale K m3 (vget K da k) (mrow (tp lb) k))
+            (lvecmat K m3 m3 (lvecmat K m2 m3 (mrow (tq ua) k) (nth [::] psis k)) (tget (ta lb) k)).
+Definition theta_u k : vec :=
+  vadd K m4 (vscale K m4 (vget K da k) (mrow (tq ub) k))
+            (lvecmat K m4 m4 (lvecmat K m1 m4 (mrow (tp la) k) (nth [::] phis k)) (ltr K m4 m4 (tget (ta ub) k))).
+Definition eta_u k : vec :=
+  vadd K m2 (vscale K m2 (vget K db k) (mrow (tp ua) k))
+            (lmatvec K m2 m3 (lmul K m2 m2 m3 (ltr K m2 m2 (tget (ta ua) k)) (nth [::] psis k)) (mrow (tq lb) k)).
+Definition lam_u k : F :=
+  oadd K (oadd K (omul K (vget K da k) (vget K db k))
+                 (ldot K m4 (lvecmat K m1 m4 (mrow (tp la) k) (nth [::] phis k)) (mrow (tp ub) k)))
+         (ldot K m3 (lvecmat K m2 m3 (mrow (tq ua) k) (nth [::] psis k)) (mrow (tq lb) k)).
+Definition lower_u : tri :=
+  MkTri n (m1 + m3)
+    (mkseq (fun k => vcat K m1 m3 (mrow (tp la) k) (beta_u k)) n)
+    (mkseq (fun k => vcat K m1 m3 (alpha_u k) (mrow (tq lb) k)) n)
+    (mkseq (fun k => lblock K m1 m3 m1 m3 (tget (ta la) k) (louter K m1 m3 (mrow (tq la) k) (mrow (tp lb) k))
+                                          (lzero K m3 m1) (tget (ta lb) k)) n).
+Definition upper_u : tri :=
+  MkTri n (m2 + m4)
+    (mkseq (fun k => vcat K m2 m4 (eta_u k) (mrow (tp ub) k)) n)
+    (mkseq (fun k => vcat K m2 m4 (mrow (tq ua) k) (theta_u k)) n)
+    (mkseq (fun k => lblock K m2 m4 m2 m4 (tget (ta ua) k) (lzero K m2 m4)
+                                          (louter K m4 m2 (mrow (tq ub) k) (mrow (tp ua) k)) (tget (ta ub) k)) n).
+End MulU.
+
+Definition qsm_mul_u (A B : qsm) : option qsm :=
+  let: (n, da, la, ua) := deconstruct A in let: (_, db, lb, ub) := deconstruct B in
+  let da' := ovec n da in let db' := ovec n db in
+  let la' := otri n la in let ua' := otri n ua in let lb' := otri n lb in let ub' := otri n ub in
+  let diag := if (isSome da && isSome db) || (isSome la && isSome ub) || (isSome ua && isSome lb)
+              then Some (mkseq (lam_u n da' db' la' ua' lb' ub') n) else None in
+  let lower := if isSome la || isSome lb then Some (lower_u n da' db' la' ua' lb' ub') else None in
+  let upper := if isSome ua || isSome ub then Some (upper_u n da' db' la' ua' lb' ub') else None in
+  construct n diag lower upper false.
+
 (* QSM.__sub__ = self + (-other) ; SquareQSM.gram = transpose @ self, repackaged as Symm(diag, lower) *)
 Definition qsub (A B : qsm) : option qsm := elementwise_add A (qneg K B).
 Definition qgram (A : qsm) : option qsm :=
   match qsm_mul (qtranspose A) A with
+  | Some (Square d l _) => Some (Symm d l)
+  | _ => None
+  end.
+Definition qgram_u (A : qsm) : option qsm :=
+  match qsm_mul_u (qtranspose A) A with
   | Some (Square d l _) => Some (Symm d l)
   | _ => None
   end.
